@@ -202,6 +202,9 @@ def run_with_step_budget(fn, budget, filename_part='pretty.py'):
         sys.settrace(old)
 
 
+PRETTY_GUARD_S = 20      # CPU seconds; >= 1000 x the slowest legitimate call on these sizes
+
+
 def strip_ws(s):
     return re.sub(r'\s+', '', s)
 
@@ -248,9 +251,16 @@ def check_debug_and_pretty(text, check_pretty=True):
             info['repr'] = rep
             budget = 400 * (len(rep) + 10)
             try:
-                (_r, out), steps = run_with_step_budget(lambda o=obj: quiet(o.pretty), budget)
+                with common.cpu_guard(PRETTY_GUARD_S):
+                    (_r, out), steps = run_with_step_budget(lambda o=obj: quiet(o.pretty), budget)
             except StepBudget:
                 fails.append(('pretty-does-not-terminate', f'pretty() of {text!r} exceeded {budget} steps (repr length {len(rep)})'))
+                break
+            except common.CallTimeout:
+                # no Python-level steps were being made (the step budget would have fired): the CPU time went into one call
+                # of C code, i.e. a regular expression.  CPU seconds of this process, not the wall clock.
+                fails.append(('pretty-does-not-terminate', f'pretty() of {text!r} (repr length {len(rep)}) made no further steps and '
+                                                           f'burnt {PRETTY_GUARD_S} s of CPU inside one call (a normal call takes milliseconds)'))
                 break
             except Exception as e:  # noqa: BLE001
                 fails.append(('pretty-raises-' + type(e).__name__, f'{text!r}: {e!r:.150}'))
@@ -320,6 +330,27 @@ def shard(ctx):
         else:
             sl = FG.gen_list(ch, DCFG, max_items=2)
             text = respell.Respeller(ch, 'all', 0.2).pattern(sl) if ch.p(0.5) else S.render_list(sl)
+            if ch.p(0.25):
+                # values long enough that their compiled pattern no longer fits the 200 characters re.Pattern.__repr__
+                # shows (the repr then holds an unbalanced quote), alone and in every position relative to other tokens
+                n_ = ch.pick((150, 190, 197, 198, 230, 400))
+                unit = ch.pick(('a', 'a', 'ab ', "x'", 'q\\"', '.+'))
+                long_value = (unit * n_)[:n_]
+                long_attr = '[data-x' + ch.pick(('=', '~=', '*=', '^=')) + S.cssstring(long_value) + ch.pick(('', ' i')) + ']'
+                where_ = ch.i(0, 5)
+                if where_ == 0:
+                    text = long_attr
+                elif where_ == 1:
+                    text = long_attr + ', ' + text
+                elif where_ == 2:
+                    text = text + ', ' + long_attr
+                elif where_ == 3:
+                    text = long_attr + ch.pick((' ', ' > ', ' ~ ')) + text
+                elif where_ == 4:
+                    text = text + ch.pick((' ', ' > ', ' + ')) + long_attr
+                else:
+                    text = ':is(' + long_attr + ', p):not(' + long_attr + ')'
+                col.classify('long-attribute-value')
             fails, info = check_debug_and_pretty(text)
             col.count(3)
             col.classify('debug-pretty')
